@@ -372,6 +372,7 @@ def run(m, tier):
     for f in r8.findings:
         f.rule = "C03.R8"
     results.append(r8)
+    results.append(engine_tables.binary_op_rule(m, "C03.R9"))
     expl = ("Decides structural clauses of C03: the 12-level expression table extracted from the match methods equals the standard's "
             "(operator, operand classes, split side, fall-through; Parenthesis wraps Expr under Primary); the generic binary engine, "
             "specialised for right=True/False, reaches a match only after the rightmost/leftmost split and builds each operand from its "
